@@ -21,6 +21,9 @@ type opt struct {
 	t1      bool // place the case's single known-trigger fault on this command
 	big     bool // the edit writes more than 1024 bytes
 	paths   []string
+	vfStat  int // push: answer the vfNth-th and every later locks/verify request of this push with this status
+	vfNth   int
+	both    bool // push both branches
 }
 
 func (c *cse) pick(n int) int    { return c.rnd.Intn(n) }
@@ -876,11 +879,25 @@ func (c *cse) opCheckout(u *user, o opt) {
 				specs = []string{spec}
 			}
 		}
+		// only files that HEAD contains are restored; a file the driver created on a branch that does not have
+		// it stays an untracked file the command (and the hook's scan of tracked files) never touches
+		inHead := func(p string) bool { return c.env.PlainGit(u.dir, "cat-file", "-e", "HEAD:"+p).OK() }
+		var keep []string
+		for _, p := range fixed {
+			if inHead(p) {
+				keep = append(keep, p)
+			}
+		}
+		fixed = keep
 		res, _ := c.exec(u, "checkout-files", "", "git", append([]string{"checkout", "-q", "HEAD", "--"}, specs...)...)
 		if res.OK() {
 			for _, sp := range specs {
 				if sp == "." {
-					u.dirty = map[string]bool{}
+					for p := range u.dirty {
+						if inHead(p) {
+							delete(u.dirty, p)
+						}
+					}
 				} else {
 					delete(u.dirty, sp)
 				}
@@ -927,7 +944,7 @@ func (c *cse) opMerge(u *user, o opt) {
 
 func (c *cse) opPush(u *user, o opt) {
 	branches := []string{u.branch}
-	if c.coin(25) {
+	if c.coin(25) || o.both {
 		branches = []string{"main", "side"}
 	}
 	state := c.verifyState(u)
@@ -949,6 +966,25 @@ func (c *cse) opPush(u *user, o opt) {
 	if state != "false" && updates > 0 {
 		t1 = c.armT1(o.t1)
 	}
+	// a fault on the verify listing of this push: 404/501/403/500 on the first or on the N-th (later page of
+	// a paginated listing, or the listing for a later ref) locks/verify request
+	vfArmed := false
+	if !t1 && state != "false" && updates > 0 && c.flavor != "locks-unimpl" && c.flavor != "verify-unimpl" {
+		if o.vfStat == 0 && !o.t1 && c.coin(25) {
+			o.vfStat, o.vfNth = []int{404, 501, 403, 500}[c.pick(4)], 1+c.pick(3)
+		}
+		if o.vfStat != 0 {
+			if o.vfNth < 0 { // scripted: the first request for the second ref = one more than the pages of a listing
+				pages := 1
+				if c.page > 0 && len(t) > 0 {
+					pages = (len(t) + c.page - 1) / c.page
+				}
+				o.vfNth = pages + 1
+			}
+			c.arm("lock-verify", o.vfStat, o.vfNth-1)
+			vfArmed = true
+		}
+	}
 	// paths whose lock check is delivered by the scanner's un-awaited goroutine: non-LFS blobs of >= 1024 bytes
 	racy := len(foreignHit) > 0
 	for _, p := range foreignHit {
@@ -966,6 +1002,32 @@ func (c *cse) opPush(u *user, o opt) {
 	refsSame := fmt.Sprint(remote) == fmt.Sprint(after)
 	nver, verOK, notImpl := verifyOutcome(reqs)
 	c.count("pushes_locksverify_"+state, 1)
+	placement := ""
+	okSeen := 0
+	for _, rq := range reqs {
+		if rq.Kind != "lock-verify" {
+			continue
+		}
+		if rq.Status == 200 {
+			okSeen++
+			continue
+		}
+		where := "first-request"
+		if cur, _ := rq.JSON["cursor"].(string); cur != "" {
+			where = "later-page"
+		} else if okSeen > 0 {
+			where = "later-ref"
+		}
+		placement = fmt.Sprintf("%d-on-%s", rq.Status, where)
+		break
+	}
+	if vfArmed {
+		if placement == "" {
+			c.count("push_verify_fault_armed_but_not_reached", 1)
+		} else {
+			c.count("push_verify_fault_"+placement, 1)
+		}
+	}
 	if nver > 0 {
 		u.snapVerifyOK = false // the push rewrote the cached verifiable listing of the pushed refs
 		if verOK {
@@ -997,10 +1059,48 @@ func (c *cse) opPush(u *user, o opt) {
 		}
 	case notImpl:
 		// locksverify=true and the server answers 404/501 to verify: git-lfs-config(5) promises a halt on
-		// "server issues" without saying whether "not implemented" is one; nothing is demanded.
-		c.count("pushes_unjudged_verify_not_implemented", 1)
-		if len(foreignHit) > 0 && res.OK() {
-			c.count("pushes_true_verify_not_implemented_foreign_locked_accepted", 1)
+		// "server issues" without saying whether "not implemented" is one; nothing is demanded for locks the
+		// client never saw. But a foreign lock that a SUCCESSFUL page / ref listing of this very push carried
+		// is known to the client: with verification enabled the push must not update a ref whose new commits
+		// touch such a path.
+		visible := map[string]bool{}
+		for _, rq := range reqs {
+			if rq.Kind != "lock-verify" || rq.Status != 200 || rq.Header.Get(internalHeader) != "" {
+				continue
+			}
+			start := 0
+			if cur, ok := rq.JSON["cursor"].(string); ok {
+				fmt.Sscan(cur, &start)
+			}
+			for i := start; i < len(t) && (c.page == 0 || i < start+c.page); i++ {
+				visible[t[i].Path] = true
+			}
+		}
+		judged := false
+		for b, tb := range perRef {
+			var hits []string
+			for _, l := range t {
+				if l.Owner != u.ident && tb[l.Path] && visible[l.Path] {
+					hits = append(hits, l.Path)
+				}
+			}
+			if len(hits) == 0 {
+				continue
+			}
+			judged = true
+			if after["refs/heads/"+b] != remote["refs/heads/"+b] {
+				c.violate("push-accepted-foreign-locked-path", c.pathTrig("verify-listing-fault/"+placement, hits...), u.name+"/"+b+"/"+strings.Join(hits, ","),
+					desc+fmt.Sprintf("; verify listing fault %s; remote branch %s was updated (push exit %d) although its new commits touch %v, locked by %s, and an earlier successful locks/verify answer of this push listed that lock", placement, b, res.Code, hits, u.other.name))
+			}
+		}
+		if judged {
+			c.count("pushes_judged_listing_fault_lock_was_visible", 1)
+			c.count("pushes_judged_listing_fault_lock_was_visible_"+placement, 1)
+		} else {
+			c.count("pushes_unjudged_verify_not_implemented", 1)
+			if len(foreignHit) > 0 && res.OK() {
+				c.count("pushes_true_verify_not_implemented_foreign_locked_accepted", 1)
+			}
 		}
 	case len(foreignHit) > 0:
 		c.count("pushes_judged_must_reject", 1)
@@ -1009,6 +1109,9 @@ func (c *cse) opPush(u *user, o opt) {
 			trig = "content-equals-existing-blob"
 		} else if racy {
 			trig = "non-lfs-blob-ge-1024-bytes"
+		}
+		if vfArmed && placement != "" {
+			trig = "verify-listing-fault/" + placement
 		}
 		trig = c.pathTrig(trig, foreignHit...)
 		if c.page > 0 && len(t) > c.page {
@@ -1138,6 +1241,8 @@ func (c *cse) prefix() []step {
 		if c.coin(80) {
 			kind = 0
 		}
+	case c.vfault && c.coin(90):
+		kind = 10 + c.pick(2)
 	case c.raceEnv != nil && c.coin(70):
 		// race-instrumented pushes: a large non-LFS blob on a path locked by the other user
 		kind, p, big = 0, []string{"n.txt", "m.txt"}[c.pick(2)], true
@@ -1160,6 +1265,16 @@ func (c *cse) prefix() []step {
 			return []step{{a, "lock", opt{path: q}}, {b, "checkout", opt{mode: "branch"}}, {b, "unlock", opt{path: q, mode: []string{"force-path", "force-id"}[c.pick(2)]}}, {b, "checkout", opt{mode: "branch"}}, {a, "checkout", opt{mode: "branch"}}, {a, "checkout", opt{mode: "branch"}}}
 		}
 		return []step{{a, "lock", opt{path: q}}, {a, "checkout", opt{mode: "branch"}}, {a, "unlock", opt{path: q, mode: um}}, {a, "checkout", opt{mode: "branch"}}, {a, "locklocal", opt{}}}
+	case 10: // a later PAGE of the push's verify listing is answered 404/501 after the first page carried the foreign lock
+		st := []int{404, 501}[c.pick(2)]
+		return []step{{a, "lock", opt{path: p}}, {a, "lock", opt{}}, {a, "lock", opt{}}, {b, "commit", opt{path: p}}, {b, "push", opt{vfStat: st, vfNth: 2}}, {b, "push", opt{}}}
+	case 11: // two refs in one push: the listing for the first ref succeeds, the one for the second ref is answered 404/501
+		st := []int{404, 501}[c.pick(2)]
+		other := "plain.md"
+		if p == other {
+			other = "x.bin"
+		}
+		return []step{{a, "lock", opt{path: p}}, {b, "commit", opt{path: p}}, {b, "checkout", opt{mode: "branch"}}, {b, "commit", opt{path: other}}, {b, "push", opt{vfStat: st, vfNth: -1, both: true}}, {b, "push", opt{both: true}}}
 	case 8: // the lock cache is lost, then unlock --id of a modified file (the path must come from the server)
 		return []step{{a, "lock", opt{path: p}}, {a, "losecache", opt{}}, {a, "edit", opt{path: p}}, {a, "unlock", opt{path: p, mode: "id"}}, {a, "unlock", opt{path: p, mode: "path"}}, {a, "locksverify", opt{mode: "json"}}, {a, "commit", opt{path: p}}}
 	case 9: // second clone of a user: lock in one clone, guard / listing / hooks in the other one
